@@ -88,7 +88,7 @@ impl Sess {
             let path = if scope == "user" { dir.join("user/dictionary.txt") } else { file_dict_path(&dir, &docs[0].1) };
             std::fs::create_dir_all(path.parent().unwrap()).unwrap();
             std::fs::write(&path, raw.as_bytes()).unwrap();
-            evs.push(json!({"ev": "Preexisting", "scope": scope, "doc": 1, "words": words, "raw": raw}));
+            evs.push(json!({"ev": "Preexisting", "scope": scope, "doc": 1, "words": words, "raw": raw, "lines": []}));
         }
         let mut s = Self { user_path: dir.join("user/dictionary.txt"), ls: Ls::new(&dir), dir, docs, evs };
         s.boot();
@@ -222,6 +222,25 @@ pub fn main(a: &Args) {
                     for e in s.evs.drain(..) { out.emit(&e); }
                     let _ = std::fs::remove_dir_all(&s.dir);
                 }
+            }
+        }
+        // (1c) a hand-edited dictionary file: besides its words it holds lines that are not words at all (a phrase, a
+        // remark, blanks, a tab-separated pair).  Whatever the loader makes of those lines, the words around them are
+        // stored words: accepted, and still there after the next add and a restart.
+        for scope in ["user", "file"] {
+            for (ji, junk) in ["New York", "# my words", "very good indeed", "two  words\there", "ünï cödé", "et al. (1999)"].iter().enumerate() {
+                let words = vec![W[2], W[3]];
+                let raw = match ji % 3 { 0 => format!("{junk}\n{}\n{}\n", W[2], W[3]), 1 => format!("{}\n{junk}\n{}\n", W[2], W[3]), _ => format!("{}\n{}\n{junk}", W[2], W[3]) };
+                let mut s = Sess::new_with(base.join(format!("s{n}")), Some((scope, raw, words.clone()))); n += 1;
+                // (the odd line may stay in the file; nothing is claimed about what it matches)
+                if let Some(e) = s.evs.iter_mut().find(|e| e["ev"] == "Preexisting") { e["lines"] = json!([junk]); }
+                s.observe();
+                s.add(scope, W[0], 1);
+                s.observe();
+                s.restart();
+                s.observe();
+                for e in s.evs.drain(..) { out.emit(&e); }
+                let _ = std::fs::remove_dir_all(&s.dir);
             }
         }
         // (1d) words that are other capitalisations of curated entries
